@@ -16,7 +16,7 @@ RULE = ("correspondence: a hub Node with 0..6 (thorough 0..10) out-arcs and in-a
         "check_basic, timestep ends; reply, iteration-limit message, ZeroDivisionError and every arc record and "
         "neighbour state compared exactly with coq/Distrib.v (cases whose exact results exceed 30 digits are not sent "
         "to Coq and are counted). monitor: the C18 clauses on the implementation incl. the proportional-share clause "
-        "when everything fits in the first round; family leak: the real Distribution with leakage (also overridden on a used node) against coq/Leak.v; probes on whole models after a run: a pull over any arc returns no more than was asked. non-trivial = distinct case with a fan of at least 2")
+        "when everything fits in the first round; family leak: the real Distribution with leakage (also overridden on a used node) against coq/Leak.v; family kind: the store-backed node classes that serve as suppliers (coq/Kinds.v); real suppliers: a junction pulling from real River (with reaches upstream) / Reservoir / Storage / Groundwater nodes - delivered <= asked, <= what the suppliers hold (computed from the contents, not from the library checks), pieces add up, exactly the delivered volume leaves the stores; probes on whole models after a run: a pull over any arc returns no more than was asked. non-trivial = distinct case with a fan of at least 2")
 
 
 def main():
@@ -40,7 +40,10 @@ def main():
     import corr_kinds  # noqa: F401
     import corr_leak  # noqa: F401
     K.correspondence(rep, "leak", 2000 if thorough else 250, 8, tag="c18", maxdigits=30)
+    # the store-backed node classes as neighbours: their pull side is coq/Kinds.v (a River passes a request on upstream)
+    K.correspondence(rep, "kind", 1000 if thorough else 150, 8, tag="c18", maxdigits=30)
     S.monitor_c18(rep, 3000 if thorough else 300)
+    corr_kinds.monitor_c18_suppliers(rep, 2000 if thorough else 250)
     # the arcs of whole models after a run: a pull over any arc never returns more than was asked (the node classes of the
     # library at the far end, incl. a Distribution with leakage, whose check handler rewrites the request it is shown)
     import mon_probe
